@@ -8,6 +8,20 @@ import GqlVerif.Driver.Messages
 import GqlVerif.Spec.TypeSystem
 open Lean Gql Gql.Driver
 
+mutual
+partial def selSetsOfSel : Selection → List (List Selection)
+  | .field _ _ _ _ _ sel => selSetsOf sel
+  | .inline _ _ _ sel => selSetsOf sel
+  | .spread .. => []
+partial def selSetsOf (sel : List Selection) : List (List Selection) :=
+  sel :: sel.flatMap selSetsOfSel
+end
+
+def allSelectionSets (d : Document) : List (List Selection) :=
+  d.flatMap fun
+    | .op o => selSetsOf o.sel
+    | .frag f => selSetsOf f.sel
+
 structure DState where
   strings : Array String := #[]
   schema : Schema := []
@@ -60,6 +74,18 @@ def handle (st : DState) (j : Json) : D (DState × Json) := do
       pure (st, Json.mkObj [("outcome", "ok"), ("wf", st.schema.WF), ("single", Json.mkObj single),
         ("mergeStuck", mst.stuck), ("guardHit", mst.guardHit), ("cycleStuck", cst.stuck),
         ("planGroups", Json.arr dflt.toArray)])
+  | "collect" =>
+    let d ← document (← field j "doc")
+    let parents ← listOf nat (← field j "parents")
+    let sets := allSelectionSets d
+    let res := sets.flatMap fun sel => parents.filterMap fun p =>
+      (st.schema.typeByName p).map fun t =>
+        let c := collectFields st.schema d t sel
+        if c.stuck then Json.str "stuck" else
+        let groups := c.groups.map fun (kf : Gql.Name × List FieldNode) => (kf.1, kf.2.map fun (f : FieldNode) => s!"{rPos f.pos}:{rOptName f.alias}:{f.name}")
+        let sorted := (groups.toArray.qsort (fun a b => a.1 < b.1)).toList
+        Json.arr (sorted.map fun (k, fs) => Json.arr #[(k : Json), Json.arr (fs.map Json.str).toArray]).toArray
+    pure (st, Json.mkObj [("outcome", "ok"), ("results", Json.arr res.toArray)])
   | "svisit" =>
     match schemaVisit st.schema with
     | none => pure (st, Json.mkObj [("outcome", "panic")])
